@@ -742,6 +742,19 @@ theorem standing_denial_refuses (e : Env) (op : Op) (c : Cfg) (d : Durable) (ev 
   rcases hk with hk | hk <;>
     simp [Ev.harmless, hk2, hk, Kind.tolerated, h2] at hh2
 
+/-- The round trip of a provisioner through the admin database keeps the consultation decision
+    for every certificate type the code knows, written or not. -/
+theorem admin_db_keeps_consultation_partial (ctl wh : CertT) (hk : wh ≠ .unknown) :
+    certTypeOK ctl (viaAdminDB wh) = certTypeOK ctl wh := by
+  cases ctl <;> cases wh <;> simp_all [certTypeOK, viaAdminDB]
+
+/-- … but not for an unknown spelling (`certType: "x509"`): from ca.json such a webhook is never
+    consulted, after the migration into the admin database it is consulted for everything.  The
+    full statement `∀ ctl wh, certTypeOK ctl (viaAdminDB wh) = certTypeOK ctl wh` is false: -/
+theorem admin_db_changes_unknown_cert_type :
+    ¬ (∀ ctl wh, certTypeOK ctl (viaAdminDB wh) = certTypeOK ctl wh) := by
+  intro h; exact absurd (h .x509 .unknown) (by decide)
+
 /-! ### SCEP enrolment -/
 
 /-- a step changes the allow counter only by a challenge webhook that answered `ok` -/
@@ -1129,6 +1142,19 @@ theorem signers_store (c : Cfg) : ∀ p ∈ signerTable c, pending p.2 0 = 0 := 
     the record-keeping methods -/
 theorem local_db_always_consulted :
     storerOrder.all (fun p => p.2.getLast? == some "a.db") = true ∧ adminStoreMethods = [] := by decide
+
+/-- every configurable provisioner type hands the signing code a webhook controller of the
+    certificate type it issues (table re-derived from the source on every run), so the
+    provisioner's enriching / authorizing webhooks are consulted whatever the provisioner type -/
+theorem every_provisioner_type_consults_webhooks :
+    hookControllers.all (fun p => nonIssuingTypes.contains p.1 ||
+      (if p.2.1 == "AuthorizeSign" then p.2.2 == "X509" else p.2.2 == "SSH")) = true := by decide
+
+/-- every handler that the caller table shows calling an issuing entry point is bound to routes
+    that are modelled by an operation (routes and callers re-derived from the source) -/
+theorem issuing_routes_modelled :
+    routeTable.all (fun r =>
+      ((callerTable { e := 1, a := 1 }).all fun p => !(p.1 == r.2.1) || !r.2.2.isEmpty)) = true := by decide
 
 /-- every SCEP message type that carries a certificate request has its challenge validated
     (both lists are re-derived from the source on every run) -/
